@@ -261,7 +261,7 @@ def check(run):
     r = gen.rng_for(run.seed, "c19")
     specs = []
     k = 0
-    want = 1200 if thorough else 240
+    want = 3000 if thorough else 600
     while len(specs) < want:
         k += 1
         fam = k % 4
